@@ -22,6 +22,24 @@ type SymCons struct {
 type Range struct {
 	Lo, Hi int64 // inclusive; math.MinInt64 / math.MaxInt64 when unbounded
 	Sym    []SymCons
+	Neq    []int64 // excluded constants (v != c)
+}
+
+// tighten moves the bounds past excluded constants (v >= 0 && v != 0 ⇒ v >= 1).
+func (r *Range) tighten() {
+	for changed := true; changed; {
+		changed = false
+		for _, c := range r.Neq {
+			if r.HasLo() && r.Lo == c {
+				r.Lo++
+				changed = true
+			}
+			if r.HasHi() && r.Hi == c {
+				r.Hi--
+				changed = true
+			}
+		}
+	}
 }
 
 func (r Range) HasLo() bool { return r.Lo != math.MinInt64 }
@@ -80,6 +98,7 @@ func RangeAt(b *ssa.BasicBlock, is func(ssa.Value) bool) Range {
 		cond, truth := e.Cond()
 		applyCmp(&r, e, cond, truth, is)
 	}
+	r.tighten()
 	return r
 }
 
@@ -117,8 +136,11 @@ func applyCmp(r *Range, e Edge, cond ssa.Value, truth bool, is func(ssa.Value) b
 	}
 	// len(x) != 0 on a length means len(x) >= 1
 	if op == token.NEQ {
-		if c, ok := constInt(other); ok && c == 0 && isLenCall(matched) && r.Lo < 1 {
-			r.Lo = 1
+		if c, ok := constInt(other); ok {
+			r.Neq = append(r.Neq, c)
+			if c == 0 && isLenCall(matched) && r.Lo < 1 {
+				r.Lo = 1
+			}
 		}
 	}
 	if c, ok := constInt(other); ok {
